@@ -43,7 +43,7 @@ def run(pid, tier, seed):
                      "mode": "rnd"})
   for temp in ([3, 1], [1, 1], [1, -1]):           # temperature 6.0, 2.0, 0.5
     cfgs.append({"fam": "sb", "kind": "stochastic_binary", "alpha": "None", "temp": temp})
-  for kind in ("po2_quad", "relu_po2_quad"):
+  for kind in ("po2_quad", "relu_po2_quad", "po2_floor", "relu_po2_floor"):
     for bits in (3, 4, 5):
       for mv in (None, 2, 0):
         cfgs.append({"fam": "eq", "kind": kind, "alpha": "None", "bits": bits, "hasmv": mv is not None, "mvk": mv or 0})
